@@ -94,6 +94,7 @@ theorem ns_partialApply (c : ICtx) (D : Env) (a : Nat) (args : List (Option Expr
   split
   · apply NS.bnd (ns_currentVars cfg hs o); intro vars
     apply NS.bnd (ns_evalArgs ev hev c _ _); intro r
+    apply NS.bnd (NS.lift _); intro pat'
     exact NS.bnd (NS.alloc _) (fun _ => NS.ret _)
   · exact NS.thr _
 
@@ -220,6 +221,11 @@ theorem ns_step (e : Expr) (c : ICtx) (D : Env) : NS (step cfg ev e c D) := by
     simp only [step]
     exact NS.bnd (hev _ _ _) (fun _ => NS.bnd (hev _ _ _) (fun _ => NS.ret _))
   | fnE t ps body =>
+    simp only [step, hs, Bool.false_eq_true, if_false]
+    first
+      | (apply NS.bnd (NS.alloc _); intro _; exact NS.ret _)
+      | (apply NS.bnd (NS.ret _); intro _; apply NS.bnd (NS.alloc _); intro _; exact NS.ret _)
+  | tfnE t ps tys rt body =>
     simp only [step, hs, Bool.false_eq_true, if_false]
     first
       | (apply NS.bnd (NS.alloc _); intro _; exact NS.ret _)
